@@ -171,6 +171,27 @@ def main():
         return 2
     if a[0] == "import":
         return cmd_import(*a[1:])
+    if a[0] == "reverify":
+        # seeds are diffs against the HEAD of their day; later fix: commits can make one inapplicable or harmless
+        sroot = os.path.join(ROOT, "seeded")
+        ids = a[1:] or sorted(d for d in os.listdir(sroot) if os.path.exists(os.path.join(sroot, d, "meta.json")))
+        head = sh(["git", "-C", REPO, "rev-parse", "--short", "HEAD"])[1].strip()
+        for sid in ids:
+            d = os.path.join(sroot, sid)
+            meta = json.load(open(os.path.join(d, "meta.json")))
+            with Worktree("rv_" + sid) as wt:
+                rc0, _ = demo(wt, os.path.join(d, "demo.py"))
+                rc, out = sh(["git", "apply", os.path.join(d, "patch.diff")], cwd=wt)
+                if rc:
+                    status = "patch does not apply"
+                else:
+                    ok, tail = suite_ok(wt)
+                    rc1, _ = demo(wt, os.path.join(d, "demo.py"))
+                    status = "valid" if (rc0 == 0 and rc1 not in (0, 124) and ok) else f"demo clean={rc0} patched={rc1} suite_ok={ok}"
+            meta["at_head"] = {"repo_head": head, "status": status}
+            json.dump(meta, open(os.path.join(d, "meta.json"), "w"), indent=1)
+            print(f"{sid:10s} {status}", flush=True)
+        return 0
     if a[0] == "report":
         sroot = os.path.join(ROOT, "seeded")
         print("| seed | changed | caught by (tier: verdict, seconds) |")
